@@ -201,5 +201,10 @@ func stressTT(seed int64, tier string) {
 	for w := 0; w < writers; w++ {
 		close(starts[w])
 	}
+	// and the fill counter after all those races for empty slots counts every occupied slot exactly once
+	if n, occ, _ := search.VerifTableStats(big); int(big.Used()*float64(n)+0.5) != occ {
+		viol++
+		fmt.Printf("IMPLVIOL ttstress monotone rounds=%d :: after concurrent stores racing for empty slots the fill counter says %d but %d slots are occupied prop=C17 key=used-count\n", mrounds, int(big.Used()*float64(n)+0.5), occ)
+	}
 	fmt.Printf("stress rounds=%d reads=%d hits=%d monotone=%d violations=%d\n", rounds, reads, hits, mrounds, viol)
 }
